@@ -36,7 +36,7 @@ def token(values):
 def make_space(rng, kind):
     from keras_tuner.engine import hyperparameters as hpm
     hps = hpm.HyperParameters()
-    shape = rng.choice(["big", "small", "cond"]) if kind != "grid" else rng.choice(["small", "cond", "tiny"])
+    shape = rng.choice(["big", "small", "cond", "shared"]) if kind != "grid" else rng.choice(["small", "cond", "tiny"])
     if shape == "big":
         hps.Int("x", 0, 10 ** 9)
         hps.Float("y", 0.0, 1.0)
@@ -45,6 +45,15 @@ def make_space(rng, kind):
         hps.Boolean("b")
     elif shape == "tiny":
         hps.Choice("c", ["p", "q"])
+    elif shape == "shared":
+        # one name declared in two conditional branches, a further scope below one of the copies
+        hps.Choice("m", ["u", "v", "w"])
+        with hps.conditional_scope("m", ["u"]):
+            hps.Int("k", 1, 3)
+            with hps.conditional_scope("k", [2, 3]):
+                hps.Boolean("g")
+        with hps.conditional_scope("m", ["v"]):
+            hps.Int("k", 1, 3)
     else:
         hps.Choice("m", ["u", "v"])
         with hps.conditional_scope("m", ["u"]):
